@@ -548,3 +548,79 @@ if __name__ == "__main__":
     if "--prebuild" in sys.argv:
         exe, err = build_replay()
         print("replay crate:", exe or ("BUILD FAILED: " + str(err)[-300:]))
+
+
+def scalar_roundtrip(pid):
+    """BOUNDED stand-in for the native encode -> decode chain of scalars through serde (visitors of Nat / Int, the
+    fixed-width float writers and readers): the message must be DIDL 00 01 <opcode> <payload per spec> and the value
+    read back must be the value written -- floats compared by bit pattern, including NaNs with sign, payload and
+    signalling bit."""
+    import struct
+    t0 = time.time()
+    exe, err = build_replay()
+    if not exe:
+        return {"undecided": [f"bounded stand-in: the real crate does not build: {err}"], "failures": []}
+    scale = int(os.environ.get("VERIF_STANDIN_SCALE", "1"))
+    rnd = random.Random(3000 + int(os.environ.get("VERIF_SEED", "0") or 0))
+    cases = []   # (cmd, expected message hex, expected value text)
+    f32s = [0x00000000, 0x80000000, 0x3f800000, 0x7f800000, 0xff800000, 0x7fc00000, 0xffc00000, 0x7fa00000, 0x7f800001, 0xffffffff,
+            0x00000001, 0x7f7fffff] + [rnd.getrandbits(32) for _ in range(40 * scale)]
+    f64s = [0, 1 << 63, 0x3ff0000000000000, 0x7ff0000000000000, 0xfff0000000000000, 0x7ff8000000000000, 0xfff8000000000000,
+            0x7ff4000000000000, 0x7ff0000000000001, 0xffffffffffffffff, 1, 0x7fefffffffffffff] + [rnd.getrandbits(64) for _ in range(40 * scale)]
+    hdr = "4449444c0001"
+    for b in f32s:
+        cases.append((f"rt f32 {b:08x}", hdr + sleb_ref(-13).hex() + struct.pack("<I", b).hex(), f"{b:08x}"))
+    for b in f64s:
+        cases.append((f"rt f64 {b:016x}", hdr + sleb_ref(-14).hex() + struct.pack("<Q", b).hex(), f"{b:016x}"))
+        cases.append((f"rt optf64 {b:016x}", "4449444c016e72010001" + struct.pack("<Q", b).hex(), f"{b:016x}"))
+    nats = set()
+    for k in range(0, 200 * (3 if scale > 1 else 1) + 1):
+        for d in (-1, 0, 1):
+            if (1 << k) + d >= 0:
+                nats.add((1 << k) + d)
+    for e in range(0, 61):
+        nats.add(10 ** e)
+    for _ in range(100 * scale):
+        nats.add(rnd.getrandbits(rnd.randrange(1, 260)))
+    for n in sorted(nats):
+        cases.append((f"rt nat {n}", hdr + sleb_ref(-3).hex() + leb_ref(n).hex(), str(n)))
+        cases.append((f"rt int {n}", hdr + sleb_ref(-4).hex() + sleb_ref(n).hex(), str(n)))
+        cases.append((f"rt int {-n}", hdr + sleb_ref(-4).hex() + sleb_ref(-n).hex(), str(-n)))
+        if n < 2 ** 128:
+            cases.append((f"rt u128 {n}", hdr + sleb_ref(-3).hex() + leb_ref(n).hex(), str(n)))
+        if n < 2 ** 127:
+            cases.append((f"rt i128 {-n}", hdr + sleb_ref(-4).hex() + sleb_ref(-n).hex(), str(-n)))
+    for n in sorted(nats)[::7]:
+        cases.append((f"rt vecnat {n}", "4449444c016d7d010002" + leb_ref(n).hex() + "07", f"{n},7"))
+    p = subprocess.run([exe], input="\n".join(c[0] for c in cases) + "\n", capture_output=True, text=True, timeout=900)
+    outs = [l.strip() for l in p.stdout.splitlines()]
+    if len(outs) != len(cases):
+        return {"undecided": [f"bounded stand-in: replay produced {len(outs)} lines for {len(cases)} values"], "failures": []}
+    failures = []
+    for (cmd, emsg, eval_), o in zip(cases, outs):
+        parts = o.split(" ")
+        why = None
+        if parts[0] != "ok" or len(parts) != 3:
+            why = ("round trip fails", o[:200])
+        elif parts[1] != emsg:
+            why = ("the message is DIDL 00 01 <opcode> <payload per spec>: " + emsg, parts[1])
+        elif parts[2] != eval_:
+            why = ("the value read back is the value written: " + eval_, parts[2])
+        if why:
+            failures.append({
+                "obligation": "bounded-standin::native scalar round trip (message per spec, value read back bit for bit)", "unit": "bounded-standin",
+                "item": "Encode! / Decode! of a scalar", "fn": "roundtrip", "kind": "bounded-standin", "file": "rust/candid/src/types/number.rs",
+                "line": 0, "source_text": "", "clause": None, "verifier_message": f"`{cmd}`: expected {why[0]}, got {why[1]}",
+                "witness": {"confirmed": True, "function": "candid::Encode! / candid::Decode!", "input": cmd, "expected": why[0], "got": why[1],
+                            "replay_cmd": f"echo '{cmd}' | {exe}"}})
+            if len(failures) >= 3:
+                break
+    return {"failures": failures, "undecided": [], "obligations": 0, "discharged": 0, "trusted": [],
+            "cmds": [f"{exe} < scalar round trips (bounded stand-in)"],
+            "backends": ["BOUNDED stand-in (real Encode!/Decode! of scalars vs the spec's byte layout; not a proof)"], "samples": [],
+            "bounded_standins": [{"functions": ["number.rs serde visitors of Nat / Int (visit_byte_buf, visit_u64, visit_i64)", "ser.rs serialize_num! float writers / de.rs float readers",
+                                                "de.rs deserialize_nat / deserialize_int / deserialize_i128 / deserialize_u128 hand-over"],
+                                  "bound": f"{len(f32s)} f32 and {len(f64s)} f64 bit patterns (all NaN classes, +-0, infinities, subnormals, seeded random), "
+                                           f"{len(nats)} naturals (2^k + d, k <= {200 * (3 if scale > 1 else 1)}, powers of ten to 10^60, seeded random < 2^260) as nat / int / -int / u128 / i128 / vec nat",
+                                  "vectors": len(cases), "disagreements": len(failures), "labelled": "bounded, NOT proved",
+                                  "wall_s": round(time.time() - t0, 1)}]}
